@@ -139,6 +139,24 @@ fn default_sym(name: &[u8], i: usize) -> SymSpec {
     SymSpec { name: name.to_vec(), info: 0x12, other: 0, shndx: if i == 0 { 0 } else { 1 }, value: 0x1000 + i as u64 * 8, size: 8 }
 }
 
+/// a symbol whose every field varies: the lookup's answer depends on the name only, whatever the symbol is
+/// (undefined, absolute, common, section/file/TLS typed, local/weak, any visibility, zero value or size)
+fn rand_sym(rng: &mut Rng, name: &[u8], i: usize) -> SymSpec {
+    if i == 0 {
+        return default_sym(name, 0);
+    }
+    let ty = *rng.pick(&[0u8, 1, 2, 2, 2, 3, 4, 5, 6, 10]);
+    let bind = *rng.pick(&[0u8, 1, 1, 2, 10]);
+    SymSpec {
+        name: name.to_vec(),
+        info: (bind << 4) | ty,
+        other: rng.below(4) as u8,
+        shndx: *rng.pick(&[0u16, 0, 1, 1, 2, 0xfff1, 0xfff2, 0xffff]),
+        value: *rng.pick(&[0u64, 0, 1, 0x1000 + i as u64 * 8, 0xffff_ffff]),
+        size: *rng.pick(&[0u64, 8, 0x7fff_ffff]),
+    }
+}
+
 pub struct HashCase {
     pub symtab: Vec<u8>,
     pub strtab: Vec<u8>,
@@ -151,7 +169,8 @@ pub fn build_sysv_case(rng: &mut Rng, is64: bool, le: bool, nnames: usize, nbuck
     let mut names = vec![vec![]];
     names.extend(name_set(rng, nnames));
     let (strtab, offs) = build_strtab(&names);
-    let syms: Vec<SymSpec> = names.iter().enumerate().map(|(i, n)| default_sym(n, i)).collect();
+    let plain = rng.below(3) == 0;
+    let syms: Vec<SymSpec> = names.iter().enumerate().map(|(i, n)| if plain { default_sym(n, i) } else { rand_sym(rng, n, i) }).collect();
     let symtab = build_symtab(is64, le, &syms, &offs);
     // chains threaded newest-first (ld), oldest-first, or in a random order: all are gABI-conformant
     let hash = match rng.below(3) {
@@ -174,7 +193,8 @@ pub fn build_gnu_case(rng: &mut Rng, is64: bool, le: bool, nnames: usize, nbucke
     let (hash, order) = build_gnu_hash(is64, le, nbucket, nbloom, shift, symoffset, &names);
     let ordered: Vec<Vec<u8>> = order.iter().map(|&i| names[i].clone()).collect();
     let (strtab, offs) = build_strtab(&ordered);
-    let syms: Vec<SymSpec> = ordered.iter().enumerate().map(|(i, n)| default_sym(n, i)).collect();
+    let plain = rng.below(3) == 0;
+    let syms: Vec<SymSpec> = ordered.iter().enumerate().map(|(i, n)| if plain { default_sym(n, i) } else { rand_sym(rng, n, i) }).collect();
     let symtab = build_symtab(is64, le, &syms, &offs);
     HashCase { symtab, strtab, hash, names: ordered, first_hashed: symoffset as usize }
 }
@@ -290,6 +310,26 @@ pub fn gen_hash(kind: &str, rng: &mut Rng, n: usize, thorough: bool) -> Vec<Case
             ));
         }
     }
+    // long chains: one bucket (or two) holding 64 / 65 / 66 / 130 symbols — walks that pass any small fixed step count;
+    // queried with the deepest and the shallowest symbol and with absent names
+    for nn in [64usize, 65, 66, 130] {
+        for nb in [1u32, 2] {
+            let is64 = nn % 2 == 0;
+            let le = nb == 1;
+            let case = if gnu { build_gnu_case(rng, is64, le, nn, nb, 1, 3, 1) } else { build_sysv_case(rng, is64, le, nn, nb) };
+            let hashed: Vec<Vec<u8>> = case.names[case.first_hashed.min(case.names.len())..].to_vec();
+            let mut qs: Vec<(Vec<u8>, &str)> = vec![(b"absent-name-1".to_vec(), "absent"), (b"zz-absent".to_vec(), "absent")];
+            if let (Some(a), Some(b)) = (hashed.first(), hashed.last()) {
+                if !qs.iter().any(|q| q.0 == *a) { qs.push((a.clone(), "present")); }
+                if !qs.iter().any(|q| q.0 == *b) { qs.push((b.clone(), "present")); }
+            }
+            qs.retain(|q| q.1 == "present" || !hashed.iter().any(|p| *p == q.0));
+            for (q, presence) in qs {
+                out.push((format!("{} {} {} {} {} {} {}", kind, le as u8, cls(is64), hex(&case.symtab), hex(&case.strtab), hex(&q), hex(&case.hash)),
+                          format!("wf=1|{}|long-chain", presence)));
+            }
+        }
+    }
     // header-field sweep: every header word of a well-formed table set to each boundary value
     {
         let is64 = rng.below(2) == 0;
@@ -308,7 +348,7 @@ pub fn gen_hash(kind: &str, rng: &mut Rng, n: usize, thorough: bool) -> Vec<Case
     }
     // adversarial chains for termination (C16): cyclic SysV chains of every length, GNU chains without stop bit
     if !gnu {
-        for cyc in 1..=(if thorough { 24 } else { 8 }) {
+        for cyc in (1..=(if thorough { 24 } else { 8 })).chain([70usize, 129]) {
             let is64 = cyc % 2 == 0;
             let le = cyc % 3 != 0;
             let nsym = cyc + 2;
